@@ -231,6 +231,21 @@ func init() {
 				}
 			}
 		}
+		// the hash handed to a partial / contentOf / block helper is data, not the callee's scope: what the
+		// callee binds or assigns is not visible in it afterwards, and a second call starts afresh
+		for _, call := range []struct{ pre, call string }{
+			{"", "<%= partial(\"setter\", d) %>"},
+			{"<% contentFor(\"cs\") { %><% let zz = 5 %><% v = v + 6 %><%= v %><% } %>", "<%= contentOf(\"cs\", d) %>"},
+			{"", "<%= blkctx(d) { %><% let zz = 5 %><% v = v + 6 %><%= v %><% } %>"},
+		} {
+			c := RCase{Tmpl: "<% let d = {v: 3} %>" + call.pre + call.call + "|" + call.call + "[<%= for (k, x) in d { %><%= k %>=<%= x %>;<% } %>]<%= d[\"zz\"] %>",
+				Binds: []Bind{{"blkctx", vGo(105)}}, Parts: map[string]string{"setter": "<% let zz = 5 %><% v = v + 6 %><%= v %>"}}
+			o := e.addRenderCase("data-hash", c)
+			e.Distinct(c.Tmpl)
+			if want := "9|9[v=3;]"; o.Class != "OK" || o.Out != want {
+				e.Violate("c09-scope", fmt.Sprintf("%q rendered %q (%s %s), want %q: the hash passed as data must not become the callee's scope", c.Tmpl, o.Out, o.Class, o.Msg, want), map[string]interface{}{"case": c, "observed": o})
+			}
+		}
 		n := 120
 		if e.Thorough() {
 			n = 6000
